@@ -385,10 +385,10 @@ def work_dates(chunk):
     col = engines.Collector()
     for _ in chunk:
         for time in range(1, 8):
-            for unit in (datetime.timedelta(minutes=1), datetime.timedelta(minutes=5), datetime.timedelta(days=1)):
+            for unit in (datetime.timedelta(minutes=1), datetime.timedelta(minutes=5), datetime.timedelta(days=1), datetime.timedelta(milliseconds=500), datetime.timedelta(microseconds=333333), datetime.timedelta(seconds=1.5)):
                 for give_unit in (False, True):
                     for set_init in (False, True):
-                        for last in (datetime.datetime(2022, 1, 1, 0, 0, 0), datetime.datetime(2020, 2, 29, 23, 59, 0)):
+                        for last in (datetime.datetime(2022, 1, 1, 0, 0, 0), datetime.datetime(2020, 2, 29, 23, 59, 0), datetime.datetime(2022, 1, 1, 12, 0, 0, 250000)):
                             p = BaseProject(init_datetime=INIT, unit_timedelta=unit if not give_unit else datetime.timedelta(hours=3))
                             p.time = time
                             col.evaluations += 1
